@@ -4,6 +4,18 @@ ROOT = os.path.dirname(os.path.dirname(os.path.abspath(__file__)))
 BASE = json.load(open('/root/.vp/BASELINE.json'))['cmd'] if os.path.exists('/root/.vp/BASELINE.json') else ''
 
 CHECKS = {
+ "C08": ("bounded exhaustive enumeration of exports x symbol bindings x branches with runtime observation of every annotated value",
+         "Every corpus export and nesting-grammar export is executed for several symbol bindings (default / all ones / primes) and both branch signs with EVERY annotated value observed: top-level values as extra ORT outputs, nested Loop/If/function scopes through a hooked ONNX reference evaluator; declared dtype, rank, concrete dims and symbol consistency must be refined by the runtime tensors. Annotations are also captured immediately before and after the real postprocess_ir_model call: I/O identical, intermediates only weakened.",
+         "ORT / reference evaluator report true runtime shapes (values downstream of Loop scan outputs in the reference evaluator are excluded: known evaluator artefact).",
+         "DESIGN.md section 2, C08", "model_checking"),
+ "C13": ("explicit-state search over conversion histories on the real to_onnx with fault injection at every patch application; state = process snapshot",
+         "All histories up to depth 2 (3 thorough) over 17 succeeding/failing conversion events plus a fault injected at each of the ~500 tracing-time patch applications; after every event the process snapshot (identity of >100k callable/class attributes of jax*/flax*/equinox* modules and classes, x64 flag, converter patch bookkeeping, user model digests, behavioural probes incl. a jit helper first traced during conversion) must equal the initial one. Histories start from verified-pristine worker processes.",
+         "plain-data attributes are not compared; first-time imports are not differences; seam plugin_system.apply_patches (degrades if absent).",
+         "DESIGN.md section 2, C13", "model_checking"),
+ "C14": ("bounded exhaustive enumeration of request x prefix-history x repetition x hash seed x import order x set-iteration-order (deviation-bounded choice tree), digest equality",
+         "10 requests x all prefix histories of length <=1 and failing/function pairs of length 2 (all pairs thorough) x 3 repetitions, 4 (16) PYTHONHASHSEED values in separate interpreters, reversed plugin import order, and every rotation/reversal of every iteration of the optimizer's set()-built collections (deviation bound 1 quick / 2 thorough) must produce the SHA-256 of the first export in a fresh default process.",
+         "deterministic protobuf serialisation is canonical; seeds outside the list not explored.",
+         "DESIGN.md section 2, C14", "model_checking"),
  "C03": ("bounded exhaustive enumeration of corpus programs and nesting-tree grammar through the real to_onnx, structural oracle on every export",
          "Every corpus program at its own configuration (thorough: x opsets 21/24/newest) and every nesting word of length <=2 (3 thorough) over {while, fori, scan, cond, onnx_function, onnx_function(unique)} x 4 body variants x {concrete, symbolic} is exported; each returned model must pass onnx.checker(full), strict shape inference, ORT session creation (ORT's own kernel/opset gaps triaged by message) and an independent SSA/scope/function-arity walker.",
          "onnx checker/inference and ORT loading are the validity oracles; exports that raise are outside the property.",
